@@ -115,7 +115,11 @@ void SbmlPrinter::bvisit(const Piecewise &x)
 
 void SbmlPrinter::bvisit(const Infty &x)
 {
-    str_ = "inf";
+    if (x.is_negative_infinity()) {
+        str_ = "-inf";
+    } else {
+        str_ = "inf";
+    }
 }
 
 void SbmlPrinter::bvisit(const Constant &x)
